@@ -122,6 +122,7 @@ impl TpmServer1_2 {
             platform_class: (PlatformClass::Server as u16).into(),
             ..Default::default()
         }
+        .update_header()
     }
 
     fn update_header(mut self) -> Self {
